@@ -79,6 +79,11 @@ macro_rules! js_type {
                 unsafe { &*(val as *const $crate::__wasm_bindgen::JsValue as *const Self) }
             }
         }
+        impl $crate::__wasm_bindgen::convert::IntoJs for $name {
+            fn into_js(self) -> $crate::__wasm_bindgen::JsValue {
+                ::core::convert::Into::into(self)
+            }
+        }
         impl ::core::fmt::Debug for $name {
             fn fmt(&self, f: &mut ::core::fmt::Formatter<'_>) -> ::core::fmt::Result {
                 ::core::fmt::Debug::fmt(
@@ -136,6 +141,11 @@ impl JsCast for Object {
     fn unchecked_from_js_ref(val: &JsValue) -> &Self {
         // SAFETY: `Object` is a `#[repr(transparent)]` newtype around `JsValue`.
         unsafe { &*(val as *const JsValue as *const Self) }
+    }
+}
+impl wasm_bindgen::convert::IntoJs for Object {
+    fn into_js(self) -> JsValue {
+        self.obj
     }
 }
 impl fmt::Debug for Object {
